@@ -392,6 +392,16 @@ def desc_machine(F):
     m.text_keys = True
     params = tm.install_bech32(F, m)
     ext_hooks(F, m)
+    # the crate's own hash256::Hash (a hash_newtype! over sha256d, displayed forwards) is, like the foreign hash types, its
+    # text: 64 hex digits
+    from .. import builtins as B
+
+    def h256(m_, a, c):
+        t = B.deref(a[0])
+        if isinstance(t, str) and len(t) == 64 and all(ch in "0123456789abcdefABCDEF" for ch in t):
+            return B.ok(t.lower())
+        return B.err(Term("HexToArrayError", t))
+    m.hooks["<miniscript::hash256::Hash as std::str::FromStr>::from_str"] = h256
     return m, params
 
 
@@ -1096,7 +1106,11 @@ def check_secret_descriptors(chk, F):
     texts = ["wpkh(%s/0/*)" % XPRV, "pkh(%s)" % XPRV, "sh(wpkh([deadbeef/1']%s/2/*))" % XPRV, "wsh(multi(2,%s/1'/*,%s/2/*))" % (XPRV, X2),
              "wsh(multi(2,%s/2/*,%s/1'/3/*))" % (X2, XPRV), "tr(%s/<0;1>/*,pk(%s/7'/<2;3>/*))" % (X2, XPRV),
              "tr(%s/0'/1'/*,{pk(%s/1/*),pk(%s/5'/*h)})" % (XPRV, X2, XPRV.replace("A1", "C9")),
-             "sh(wsh(and_v(v:pk(%s/0'/*),older(9))))" % XPRV, "wsh(pk(%s/0/*))" % X2]
+             "sh(wsh(and_v(v:pk(%s/0'/*),older(9))))" % XPRV, "wsh(pk(%s/0/*))" % X2,
+             # hash fragments go through the key-map translators unchanged
+             "wsh(and_v(v:pk(%s/0/*),sha256(%s)))" % (XPRV, "ab" * 32), "wsh(and_v(v:pk(%s/1'/*),hash256(%s)))" % (XPRV, "cd" * 32),
+             "tr(%s/3/*,and_v(v:pk(%s/4'/*),hash160(%s)))" % (X2, XPRV, "12" * 20),
+             "sh(and_v(v:pk(%s),ripemd160(%s)))" % (XPRV, "ef" * 20)]
     orig = B.fmt_value
     B.fmt_value = _key_fmt_value(orig)
     n = 0
